@@ -30,7 +30,7 @@ impl vstd::std_specs::cmp::OrdSpecImpl for TimeoutItem {
 }
 impl Ord for TimeoutItem {
 //@item stun_agent :: mod timeout > impl Ord for TimeoutItem > fn cmp
-//@tags C06 C11
+//@tags C05 C06 C11 C12 C15
 //@spec
     ensures r == spec_ord(self.expiry(), other.expiry()),
 //@end
@@ -50,14 +50,14 @@ proof fn lemma_empty_ms(s: Seq<TimeoutItem>)
 }
 impl StunMessageTimeout {
 //@item stun_agent :: mod timeout > impl StunMessageTimeout > fn add
-//@tags C06 C11 C05 C12
+//@tags C05 C06 C11 C12 C15
 //@spec
     requires old(self).wf(),
     ensures final(self).wf(),
         final(self).ms() == old(self).ms().insert(TimeoutItem { instant, timeout, transaction_id }),
 //@end
 //@item stun_agent :: mod timeout > impl StunMessageTimeout > fn remove
-//@tags C06 C11 C05 C12
+//@tags C05 C06 C11 C12 C15
 //@closure 1
 |item: &Reverse<TimeoutItem>| -> (b: bool)
     ensures b == (item.0.transaction_id != *transaction_id),
@@ -68,7 +68,7 @@ impl StunMessageTimeout {
             == (if x.transaction_id != *transaction_id { old(self).ms().count(x) } else { 0 }),
 //@end
 //@item stun_agent :: mod timeout > impl StunMessageTimeout > fn next_timeout
-//@tags C11 C06
+//@tags C05 C06 C11 C12 C15
 //@head
     proof {
         self.timeouts@.to_multiset_ensures();
@@ -94,7 +94,7 @@ impl StunMessageTimeout {
         },
 //@end
 //@item stun_agent :: mod timeout > impl StunMessageTimeout > fn check
-//@tags C06 C11 C05 C12
+//@tags C05 C06 C11 C12 C15
 //@prefix
     #[verifier::spinoff_prover]
 //@spec
@@ -170,7 +170,7 @@ proof fn lemma_pow2_bound(k: int)
 }
 impl RtoCalculator {
 //@item stun_agent :: mod timeout > impl RtoCalculator > fn new
-//@tags C06
+//@tags C05 C06 C11 C12 C15
 //@spec
     requires rc <= 31, rtt.ns@ >= 0,
     ensures r.wf(), r.j() == 0, r.cfg_rc() == rc, r.rtt == rtt, r.last_rm == last_rm, r.rc == rc, r.rm == 1,
@@ -178,7 +178,7 @@ impl RtoCalculator {
     proof { assert(lg(1) == 0); assert(pow2i(0) == 1); }
 //@end
 //@item stun_agent :: mod timeout > impl RtoCalculator > fn next_rto
-//@tags C06
+//@tags C05 C06 C11 C12 C15
 //@spec
     requires old(self).wf(),
     ensures final(self).wf(),
@@ -198,13 +198,13 @@ impl RtoCalculator {
 
 impl RtoManager {
 //@item stun_agent :: mod timeout > impl RtoManager > fn new
-//@tags C06
+//@tags C05 C06 C11 C12 C15
 //@spec
     requires rc <= 31, rtt.ns@ >= 0,
     ensures r.wf(), r.latest is None, r.j() == 0, r.rc() == rc, r.rtt() == rtt.ns@, r.rm() == rm as int,
 //@end
 //@item stun_agent :: mod timeout > impl RtoManager > fn next_rto
-//@tags C06 C11
+//@tags C05 C06 C11 C12 C15
 //@spec
     requires old(self).wf(),
     ensures final(self).wf(),
@@ -320,23 +320,23 @@ proof fn lemma_default_constants()
 
 impl RttCalcuator {
 //@item stun_agent :: mod rtt > impl RttCalcuator > fn new
-//@tags C15
+//@tags C05 C06 C11 C12 C15
 //@spec
     ensures r.rto == rto, r.configured_rto == rto, r.granularity == granularity, r.srtt.ns@ == 0, r.rttvar.ns@ == 0,
 //@end
 //@item stun_agent :: mod rtt > impl RttCalcuator > fn reset
-//@tags C15
+//@tags C05 C06 C11 C12 C15
 //@spec
     ensures final(self).rto == old(self).configured_rto, final(self).configured_rto == old(self).configured_rto,
         final(self).granularity == old(self).granularity, final(self).srtt.ns@ == 0, final(self).rttvar.ns@ == 0,
 //@end
 //@item stun_agent :: mod rtt > impl RttCalcuator > fn rto
-//@tags C15
+//@tags C05 C06 C11 C12 C15
 //@spec
     ensures r == self.rto,
 //@end
 //@item stun_agent :: mod rtt > impl RttCalcuator > fn update
-//@tags C15
+//@tags C05 C06 C11 C12 C15
 //@rules R9
 //@spec
     ensures
@@ -366,7 +366,7 @@ proof fn lemma_rtt_constants()
 // ---------------------------------------------------------------- initial values (#[derive(Default)] / impl Default)
 impl Default for StunMessageTimeout {
 //@item stun_agent :: mod timeout > impl ::core::default::Default for StunMessageTimeout > fn default
-//@tags C05 C06 C11 C12
+//@tags C05 C06 C11 C12 C15
 //@spec
     // no timer pending
     ensures r.wf(), r.ms().len() == 0,
@@ -376,7 +376,7 @@ impl Default for StunMessageTimeout {
 }
 impl Default for RtoCalculator {
 //@item stun_agent :: mod timeout > impl Default for RtoCalculator > fn default
-//@tags C06
+//@tags C05 C06 C11 C12 C15
 //@spec
     ensures r.rtt.ns@ == 500_000_000, r.rm == 1, r.rc == 7, r.last_rm == 16,
 //@end
